@@ -88,6 +88,12 @@ def check(ctx):
                 quantities.append((gf, f"gaussian {side} bound, {which}", bound_value(pair[i])))
             except AnalysisError as e:
                 ctx.ob("C11.R1.term", f"{gf.qualname}|gaussian {side} bound, {which} includes S_U(results_e)", False, gf.where(), str(e))
+    for fn, what0, val0 in list(quantities):
+        # a condition the configuration does not decide: each path is a quantity of its own
+        vals_ = am.each_valuation(lambda fl_: True if am.linear(val0, fl_, []) else True, {CLS_FLAG: False})
+        if len(vals_) > 1:
+            i_ = quantities.index((fn, what0, val0))
+            quantities[i_:i_ + 1] = [(fn, what0 + am.when(e_), _fix_conds(val0, e_)) for e_, _ in vals_]
     for fn, what, val in quantities:
         problems = []
         lin = am.linear(val, {CLS_FLAG: False}, problems)
@@ -106,11 +112,11 @@ def check(ctx):
                else "classification tables group unexpected units although their classification is unknown")
     from ..frames import signature
     for fn, what, tabt in ((bf, "prediction table", tab), (nf, "nonparametric interval table", nret[2][0][1][1][1] if nret[2][0][0] == "call" else nret[2][0][1])):
-        uni, _, _ = signature(tabt, {CLS_FLAG: False})
-        has_u = isinstance(uni, frozenset) and any(g[1] == U_ for g in uni)
-        ctx.ob("C11.R1.universe", f"{fn.qualname}|{what} keeps groups that exist only through unexpected units", has_u, fn.where(),
-               "groups of unexpected units are part of the table's group universe (outer joins)" if has_u
-               else f"group universe is {uni}: a county / district that exists only through unexpected units gets no row")
+        for extra_, (uni, _, _) in am.each_valuation(lambda fl_: signature(tabt, fl_), {CLS_FLAG: False}):
+            has_u = isinstance(uni, frozenset) and any(g[1] == U_ for g in uni)
+            ctx.ob("C11.R1.universe", f"{fn.qualname}|{what} keeps groups that exist only through unexpected units{am.when(extra_)}", has_u, fn.where(),
+                   "groups of unexpected units are part of the table's group universe (outer joins)" if has_u
+                   else f"group universe is {uni}: a county / district that exists only through unexpected units gets no row")
     # ---- R2 --------------------------------------------------------------------------------------
     key_availability(ctx, "C11.R2")
     zero_turnout_quotients(ctx, mb, "C11.R3.zero-turnout",
@@ -284,6 +290,15 @@ def check(ctx):
     # C01.R1.passed-through-nan-free (all results_* columns of the units taken from the feed are filled with 0).
     n8 = ctx.borrow("C01", "C01.R1.passed-through-nan-free", "C11.R8.nan-free", "one empty extra row would overwrite the numbers of groups it does not belong to")
     ctx.sites("C11.R8", n8, 1, "nan-free obligation restated from C01.R1")
+
+
+def _fix_conds(v, extra):
+    """the value with the phi conditions of `extra` decided"""
+    if not isinstance(v, tuple):
+        return v
+    if v and v[0] == "phi" and v[1] in extra:
+        return _fix_conds(v[2] if extra[v[1]] else v[3], extra)
+    return tuple(_fix_conds(x, extra) for x in v)
 
 
 def zero_turnout_quotients(ctx, mb, rule, consequence):
